@@ -683,7 +683,8 @@ def check_C13(chk):
     groups.append([f"hkdf id=salt-empty len=40 key={hx(key)} salt=null info=01", f"hkdf id=salt-zero32 len=40 key={hx(key)} salt={'00' * 32} info=01"])
     # the limit: one-shot 8159 / 8160 / 8161 / 2^20 / 2^32+5 (refused, nothing written)
     kk, ss, ii = datav(r, 16), datav(r, 8), datav(r, 3)
-    for n in ([8160, 8161, 1 << 20] + ([8159, 8162, (1 << 32) + 5] if chk.thorough else [(1 << 32) + 5])):
+    # ... and the top of the size_t range (len=-1 is SIZE_MAX): length arithmetic of the guard must not wrap
+    for n in ([8160, 8161, 1 << 20, -1, -8, -31, -32] + ([8159, 8162, (1 << 32) + 5, -30, -33, (1 << 32) + 8160] if chk.thorough else [(1 << 32) + 5])):
         groups.append([f"hkdf id=lim{n} len={n} key={kk} salt={ss} info={ii}"])
     # incremental: every (posn, len) edge
     edges = tlc_plan(chk.wd, 'Plan_Hash', dict(FAMILY='hkdfedges', TIER=chk.tier))
@@ -735,7 +736,7 @@ def check_C13(chk):
         rule="MC_HkdfCtl: TLC exhaustive over sequences of expand requests (real scale around the 8160 limit; scaled-down instance "
              "over every request length) - every call serves exactly the next bytes of T(1)||...||T(255), zeros past the limit, "
              "-1 iff a byte past the limit was requested; bound to the code by a one-shot grid (key/salt/info length classes, "
-             "empty salt vs 32 zero bytes), the one-shot limit (8160/8161/2^20/2^32+5: refused, nothing written), every "
+             "empty salt vs 32 zero bytes), the one-shot limit (8160/8161/2^20/2^32+5 and SIZE_MAX, SIZE_MAX-7, -30, -31: refused, nothing written), every "
              "(posn, len) edge of the incremental machine, families crossing the limit, and TLC-simulated histories; validated "
              "by TLC against RFC 5869 over the interpreted HMAC; long one-shot outputs are checked block by block "
              "(T(n) = HMAC(PRK, T(n-1) || info || n) with T(n-1) taken from the same output: exact by induction)",
